@@ -476,7 +476,7 @@ def m_x_Call(self, st, n, k):
 
 def m_call(self, st, f, pos, kws, kwstar, starv, k, node=None):
     if isinstance(f, VClassSym):
-        r = self.alloc(st)
+        r = self.alloc(st, f.base)
         obj = VRef(r, f.base)
         st.assume(self.inst_of(r, f.base))
         st.assume(self.class_of(r) == f.z)
@@ -773,6 +773,12 @@ def m_havoc_modifies(self, st, pre, c, env, nxt0=None, alloc=None, full=False):
     nxt0 = pre.heap['next'] if nxt0 is None else nxt0
     r = z3.Int('r!h')
     alloc = c.allocates if alloc is None else alloc
+    if alloc and not full:
+        st.opaque_alloc = True
+    if alloc and full and not st.opaque_alloc:
+        # Loop head, and every object created so far in this activation is known by name:
+        # havoc exactly those objects (plain stores, no quantified frame axioms) plus the footprint.
+        return self.havoc_named(st, pre, fp)
     if alloc:
         n1 = fresh('next', T.I)
         st.assume(n1 >= pre.heap['next'])
@@ -788,8 +794,10 @@ def m_havoc_modifies(self, st, pre, c, env, nxt0=None, alloc=None, full=False):
             return
         new = fresh(key.replace('.', '_').replace('#', '_').replace('?', '_set'), old.sort())
         keep = z3.And([r != cz for cz in cells] + ([r < nxt0] if (alloc and full) else []) + [z3.BoolVal(True)])
-        st.assume(safe_forall([r], z3.Implies(keep, z3.Select(new, r) == z3.Select(old, r)),
-                              patterns=[z3.Select(new, r)]))
+        ax = safe_forall([r], z3.Implies(keep, z3.Select(new, r) == z3.Select(old, r)),
+                         patterns=[z3.Select(new, r)])
+        self.frame_axioms[ax.get_id()] = new.decl().name()
+        st.assume(ax)
         st.heap[key] = new
 
     self._havoc_full = full
@@ -827,6 +835,51 @@ def m_havoc_modifies(self, st, pre, c, env, nxt0=None, alloc=None, full=False):
             havoc_array(key, [])
 
 
+def m_havoc_named(self, st, pre, fp):
+    """havoc the contents of the explicitly allocated local objects and of the modifies footprint;
+    earlier iterations may have allocated more objects: `next` moves to an unknown later mark (their
+    contents are simply not known - locations above the old mark were never constrained)"""
+    n1 = fresh('next', T.I)
+    st.assume(n1 >= st.heap['next'])
+    st.heap['next'] = n1
+
+    def store_fresh(key, ref):
+        old = st.heap[key]
+        st.heap[key] = z3.Store(old, ref, z3.Select(fresh('hv', old.sort()), ref))
+    for ref, kind in st.alloc_refs:
+        if kind == 'list':
+            store_fresh('llen', ref)
+            store_fresh('lat', ref)
+        else:
+            store_fresh('slots', ref)
+            store_fresh('has', ref)
+            for cc in self.mro(kind):
+                for a, kd in self.classes.get(cc, {}).get('attrs', {}).items():
+                    if kd.startswith('dict:'):
+                        store_fresh('%s.%s#has' % (cc, a), ref)
+                        store_fresh('%s.%s#val' % (cc, a), ref)
+                    else:
+                        store_fresh('%s.%s' % (cc, a), ref)
+                        if '%s.%s?' % (cc, a) in st.heap:
+                            store_fresh('%s.%s?' % (cc, a), ref)
+    for key, cells in fp.items():
+        if key == 'slots':
+            if cells:
+                self._havoc_full = False
+                self.havoc_slots(st, st.fork(), cells, False, pre.heap['next'])
+        elif key == 'list':
+            for cz in cells:
+                store_fresh('llen', cz)
+                store_fresh('lat', cz)
+        elif key.endswith('#'):
+            for cz in cells:
+                store_fresh(key + 'has', cz)
+                store_fresh(key + 'val', cz)
+        else:
+            for cz in cells:
+                store_fresh(key, cz)
+
+
 def m_havoc_slots(self, st, pre, cells, alloc, nxt0):
     r = z3.Int('r!h')
     nm = z3.String('n!h')
@@ -841,8 +894,11 @@ def m_havoc_slots(self, st, pre, cells, alloc, nxt0):
         # objects not touched at all keep their whole slot map
         untouched = z3.And([r != o for o in objs] + [r != p[0] for p in partial.values()] +
                            ([r < nxt0] if (alloc and getattr(self, '_havoc_full', False)) else []) + [z3.BoolVal(True)])
-        st.assume(safe_forall([r], z3.Implies(untouched, z3.Select(new, r) == z3.Select(old, r)),
-                              patterns=[z3.Select(new, r)]))
+        ax = safe_forall([r], z3.Implies(untouched, z3.Select(new, r) == z3.Select(old, r)),
+                         patterns=[z3.Select(new, r)])
+        if not partial:
+            self.frame_axioms[ax.get_id()] = new.decl().name()
+        st.assume(ax)
         # partially modified objects keep the slots outside the footprint
         for pz, descs in partial.values():
             if any(pz.eq(o) for o in objs):
@@ -1484,7 +1540,7 @@ def m_call_class(self, st, cls, pos, kws, kwstar, k):
     if cls == 'PacketError' and 'PacketError' not in self.classes:
         return k(st, VExc(cls))
     if cls in self.classes:
-        r = self.alloc(st)
+        r = self.alloc(st, cls)
         obj = VRef(r, cls)
         st.assume(self.exact_class(r, cls))
         c = self.method_contract(cls, '__init__')
@@ -2139,6 +2195,7 @@ def m_verify_function(self, c):
     self._facts_added = set()
     self.paths_ended = []
     self.bound_vars = set()
+    self.frame_axioms = {}
     del T.MODREG[:]
     node, seg, sha = find_function(c.name)
     self.source_sha = sha
@@ -2228,6 +2285,26 @@ def m_verify_function(self, c):
 def m_final_hyps(self, core_hyps, goals):
     """axioms (selected by the symbols that occur), extensionality instances and div/mod hints
     for a group of goals sharing the hypotheses core_hyps"""
+    # relevance: a frame axiom that introduces a heap snapshot nobody else mentions is dropped
+    core_hyps = list(core_hyps)
+    symcache = {}
+
+    def syms_of(e):
+        i = e.get_id()
+        if i not in symcache:
+            symcache[i] = self.symbols_in([e])
+        return symcache[i]
+    changed = True
+    while changed:
+        changed = False
+        for h in list(core_hyps):
+            name = self.frame_axioms.get(h.get_id())
+            if name is None:
+                continue
+            used = any(name in syms_of(o) for o in core_hyps if o is not h) or any(name in syms_of(g) for g in goals)
+            if not used:
+                core_hyps.remove(h)
+                changed = True
     body = list(core_hyps) + list(goals)
     syms = self.symbols_in(body)
     ext = self.ext if 'Bytes' in syms else []
